@@ -338,7 +338,9 @@ type c19Span struct {
 	start, end int64
 }
 
-// oracle "round": I=[seed, goroutines, itemsPerGoroutine]
+// oracle "round": I=[seed, goroutines, itemsPerGoroutine, kind] — kind < 0: all 18 kinds
+// mixed; kind >= 0: a "storm" in which every goroutine runs only that kind, which
+// maximises the overlap inside one function (pools and caches are per function).
 func c19Round(c *core.Ctx, k *core.Case) {
 	sp := mustSpec(c)
 	if sp == nil {
@@ -354,6 +356,9 @@ func c19Round(c *core.Ctx, k *core.Case) {
 	for g := 0; g < G; g++ {
 		for i := 0; i < per; i++ {
 			it := c19Item{kind: c19Kinds[(g+i)%len(c19Kinds)], seed: r.Uint64(), region: -1}
+			if len(k.I) > 3 && k.I[3] >= 0 {
+				it.kind = c19Kinds[k.I[3]]
+			}
 			if strings.HasPrefix(it.kind, "cipher") || strings.HasPrefix(it.kind, "mac") {
 				// the j-th arena item of goroutine g gets region j*G+g: neighbours belong to other goroutines
 				it.region = perG[g]*G + g
@@ -601,6 +606,23 @@ func init() {
 		for _, G := range []int{2, 4, 16, 64} {
 			for rd := 0; rd < rounds; rd++ {
 				G, rd := G, rd
+				if G == 16 && rd == 0 {
+					for ki := range c19Kinds {
+						ki := ki
+						for st := 0; st < map[bool]int{false: 1, true: 6}[tier == "thorough"]; st++ {
+							st := st
+							us = append(us, core.Unit{Name: fmt.Sprintf("storm-%s-%d", c19Kinds[ki], st), Weight: 60, Run: func(c *core.Ctx) {
+								if raceEnabled {
+									c.Count("race_detector_active", 1)
+								}
+								k := &core.Case{Oracle: "round", Target: "nas", I: []int64{int64(c.R.Uint64() >> 1), 16, 24, int64(ki)}}
+								c.Do(k)
+								c.NonTrivial(k.Hash())
+								c.Cover("storm", c19Kinds[ki])
+							}})
+						}
+					}
+				}
 				us = append(us, core.Unit{Name: fmt.Sprintf("round-g%02d-%02d", G, rd), Weight: 100, Run: func(c *core.Ctx) {
 					per := 18 * 4
 					if G >= 16 {
@@ -609,7 +631,7 @@ func init() {
 					if raceEnabled {
 						c.Count("race_detector_active", 1)
 					}
-					k := &core.Case{Oracle: "round", Target: "nas", I: []int64{int64(c.R.Uint64() >> 1), int64(G), int64(per)}}
+					k := &core.Case{Oracle: "round", Target: "nas", I: []int64{int64(c.R.Uint64() >> 1), int64(G), int64(per), -1}}
 					c.Do(k)
 					c.NonTrivial(k.Hash())
 					for i := 0; i < G*per && i < 4000; i += 7 {
